@@ -122,14 +122,26 @@ _ACC_RECHECK = '''    if self._closed:
 '''
 _ACC_TAIL = '''    self._accept_method(sock)
 '''
+_ACC_TAIL_GUARDED = '''    try:
+        self._accept_method(sock)
+    except (RuntimeError, OSError):
+        self.clients.discard(sock)
+        sock.close()
+'''
 for _sv in (False, True):
     for _rc in (False, True):
         template("Server", "accept", "accept_prog",
                  ["AWhileActive", "AAccept", "ATimeoutContinue", "AEintrContinue"] + (["AResourceErrorSleepContinue"] if _sv else [])
                  + ["AErrorRaiseEOF", "AElseBreak", "AIfInactiveReturn", "ASetBlocking", "AClientsAdd"] + (["ARecheckClosed"] if _rc else [])
                  + ["ACallAcceptMethod"],
+                 _ACC_HEAD + (_ACC_SURVIVE if _sv else "") + _ACC_MID + (_ACC_RECHECK if _rc else "") + _ACC_TAIL_GUARDED,
+                 accept_survives_oserror=_sv, accept_rechecks_closed=_rc, accept_survives_spawn_failure=True)
+        template("Server", "accept", "accept_prog",
+                 ["AWhileActive", "AAccept", "ATimeoutContinue", "AEintrContinue"] + (["AResourceErrorSleepContinue"] if _sv else [])
+                 + ["AErrorRaiseEOF", "AElseBreak", "AIfInactiveReturn", "ASetBlocking", "AClientsAdd"] + (["ARecheckClosed"] if _rc else [])
+                 + ["ACallAcceptMethod"],
                  _ACC_HEAD + (_ACC_SURVIVE if _sv else "") + _ACC_MID + (_ACC_RECHECK if _rc else "") + _ACC_TAIL,
-                 accept_survives_oserror=_sv, accept_rechecks_closed=_rc)
+                 accept_survives_oserror=_sv, accept_rechecks_closed=_rc, accept_survives_spawn_failure=False)
 
 _WRK_HEAD = '''
 def _authenticate_and_serve_client(self, sock):
@@ -162,11 +174,17 @@ _WRK_TAIL = '''        else:
         closing(sock)
         self.clients.discard(sock)
 '''
+template("Server", "_authenticate_and_serve_client", "worker_prog",
+         ["WTry", "WIfAuthenticator", "WAuthenticate", "WAuthErrorReturn", "WTrackReplacedSocket", "WServeClient", "WReraise", "WFinallyShutdownGuarded", "WFinallyDiscard"],
+         _WRK_HEAD + _WRK_TRACK + '''                    if self._closed:
+                        sock2.close()
+                        return
+''' + _WRK_TAIL, worker_tracks_served=True, auth_rechecks_closed=True)
 for _tr in (False, True):
     template("Server", "_authenticate_and_serve_client", "worker_prog",
              ["WTry", "WIfAuthenticator", "WAuthenticate", "WAuthErrorReturn"] + (["WTrackReplacedSocket"] if _tr else [])
              + ["WServeClient", "WReraise", "WFinallyShutdownGuarded", "WFinallyDiscard"],
-             _WRK_HEAD + (_WRK_TRACK if _tr else "") + _WRK_TAIL, worker_tracks_served=_tr)
+             _WRK_HEAD + (_WRK_TRACK if _tr else "") + _WRK_TAIL, worker_tracks_served=_tr, auth_rechecks_closed=False)
 
 template("Server", "_serve_client", "serve_client_prog", ["VPeerName", "VTry", "VConfig", "VConnect", "VHandle", "VFinallyPass"], '''
 def _serve_client(self, sock, credentials):
@@ -366,6 +384,31 @@ def _serve_requests(self, fd):
 _SERVE_REQ_TAIL = '''
     self._active_connection_queue.put(fd)
 '''
+_SERVE_REQ_HEAD_ID = '''
+def _serve_requests(self, fd):
+    for _ in range(self.request_batch_size):
+        try:
+            conn = self.fd_to_conn[fd]
+            if not conn.poll():
+                self._add_inactive_connection(fd)
+                return
+        except EOFError:
+            if self.fd_to_conn.get(fd) is conn:
+                self._drop_connection(fd)
+            return
+        except Exception:
+            self._active_connection_queue.put(fd)
+            raise
+'''
+template("ThreadPoolServer", "_serve_requests", "serve_requests_prog",
+         ["QForBatch", "QPollServes", "QIfNothingAddInactiveReturn", "QEOFDropReturn", "QOtherRequeueRaise", "QBatchDoneRequeue"],
+         _SERVE_REQ_HEAD_ID + _SERVE_REQ_TAIL, pool_catches_base=False, pool_drop_checks_identity=True)
+template("ThreadPoolServer", "_serve_requests", "serve_requests_prog",
+         ["QForBatch", "QPollServes", "QIfNothingAddInactiveReturn", "QEOFDropReturn", "QOtherRequeueRaise", "QBaseDropReturn", "QBatchDoneRequeue"],
+         _SERVE_REQ_HEAD_ID + '''        except BaseException:
+            self._drop_connection(fd)
+            return
+''' + _SERVE_REQ_TAIL, pool_catches_base=True, pool_drop_checks_identity=True)
 template("ThreadPoolServer", "_serve_requests", "serve_requests_prog",
          ["QForBatch", "QPollServes", "QIfNothingAddInactiveReturn", "QEOFDropReturn", "QOtherRequeueRaise", "QBatchDoneRequeue"],
          _SERVE_REQ_HEAD + _SERVE_REQ_TAIL, pool_catches_base=False)
@@ -376,19 +419,20 @@ template("ThreadPoolServer", "_serve_requests", "serve_requests_prog",
             return
 ''' + _SERVE_REQ_TAIL, pool_catches_base=True)
 
-template("ThreadPoolServer", "_serve_clients", "pool_worker_prog",
-         ["XWhileActive", "XBlockingGet", "XIfFdServe", "XEmptyPass", "XExceptSleep"], '''
+for _z, _test in ((False, "fd"), (True, "fd is not None")):
+    template("ThreadPoolServer", "_serve_clients", "pool_worker_prog",
+             ["XWhileActive", "XBlockingGet", "XIfFdServe", "XEmptyPass", "XExceptSleep"], '''
 def _serve_clients(self):
     while self.active:
         try:
             fd = self._active_connection_queue.get(True)
-            if fd:
+            if %s:
                 self._serve_requests(fd)
         except Queue.Empty:
             pass
         except Exception:
             time.sleep(0.2)
-''')
+''' % _test, pool_serves_fd_zero=_z)
 
 template("ThreadPoolServer", "_add_inactive_connection", "add_inactive_prog", ["IRegisterREH"], '''
 def _add_inactive_connection(self, fd):
@@ -438,8 +482,10 @@ def translate(repo):
             items.append(Item("!%s.%s" % (cls, name), "failed", text=str(e)))
         if fn is not None:
             items.append(shape("%s.%s" % (cls, name), func_shape(fn)))
+    facts.setdefault("pool_drop_checks_identity", False)
     for k in ("pool_close_drops", "pool_fail_discards", "fork_parent_keeps", "pool_catches_base", "worker_tracks_served",
-              "accept_survives_oserror", "accept_rechecks_closed"):
+              "accept_survives_oserror", "accept_rechecks_closed", "pool_drop_checks_identity", "auth_rechecks_closed", "pool_serves_fd_zero",
+              "accept_survives_spawn_failure"):
         if k in facts:
             items.append(typed(k, "bool", coq_bool(facts[k])))
     # clients is a set created per server; the pool's tables are created per server
